@@ -114,6 +114,22 @@ def generate(rng, tier, focus):
         cases.append((scn(subjects=[["subject"]], handles=2, script_=full, defs=[pipe]), {"k": "hot", "g": g, "role": "combined", "n": 2}))
         cases.append((scn(subjects=[["subject"]], handles=1, script_=solo0, defs=[pipe]), {"k": "solitary", "g": g, "role": "solo", "who": 0}))
         cases.append((scn(subjects=[["subject"]], handles=1, script_=solo1, defs=[pipe]), {"k": "solitary", "g": g, "role": "solo", "who": 1}))
+    # (C') hot, three subscriptions: the first one leaves early (take 1) before the third joins, the second stays mid-stream
+    for _ in range(900 if thorough else 150):
+        g = group()
+        pipe = rand_pipe(rng, ["hot", 0])
+        emits = [["emit", 0, rng.choice([n(1), n(2), n(3), n(2)])] for _ in range(rng.randrange(3, 8))]
+        if rng.random() < 0.5:
+            emits.append(["emit", 0, rng.choice([C, e(4)])])
+        p1 = rng.randrange(0, len(emits) - 1)
+        p2 = rng.randrange(p1, len(emits))
+        p3 = rng.randrange(p2 + 1, len(emits) + 1)
+        first = ["op", "take", [1], ["ref", 0]]
+        full = emits[:p1] + [sub(0, first)] + emits[p1:p2] + [sub(1, ["ref", 0])] + emits[p2:p3] + [sub(2, ["ref", 0])] + emits[p3:]
+        cases.append((scn(subjects=[["subject"]], handles=3, script_=full, defs=[pipe]), {"k": "hot3", "g": g, "role": "combined", "n": 3}))
+        for who, (pos, pp) in enumerate([(p1, first), (p2, ["ref", 0]), (p3, ["ref", 0])]):
+            solo = emits[:pos] + [sub(0, pp)] + emits[pos:]
+            cases.append((scn(subjects=[["subject"]], handles=1, script_=solo, defs=[pipe]), {"k": "solitary", "g": g, "role": "solo", "who": who}))
     # (D) every operator under retry: the failed attempt must leave nothing behind
     for _ in range(2500 if thorough else 420):
         g = group()
